@@ -170,7 +170,18 @@ def _capture_one(raw):
                 swallowed = bool(caps[arg].__exit__(et, ev, tb))
                 del tb
             elif kind == 'print':
-                print(arg)
+                # the token reaches sys.stdout in one of three ways (by token number): print, one write without a newline followed
+                # by flush, two writes; a write answers the number of characters written, whatever it passes on to
+                if arg % 3 == 0:
+                    print(arg)
+                else:
+                    chunks = ['%d ' % arg] if arg % 3 == 1 else [str(arg), '\n']
+                    for chunk in chunks:
+                        n = sys.stdout.write(chunk)
+                        if n != len(chunk):
+                            bad.append(('write_return_step_%d_print' % (k + 1), len(chunk), n))
+                    if arg % 3 == 1:
+                        sys.stdout.flush()
             exp = dict(exp)
             got = {'out': name(sys.stdout), 'base': txt(base.getvalue()), 'sw': swallowed}
             for c in (1, 2):
